@@ -7,6 +7,18 @@ import Mochi.Props.C03
 Model: `sendLWT`, `detach` (the end of `attachClient`), `processDisconnect`, `tickWills`.
 Schedules of the old connection's teardown against a resuming connection (known finding F16a) are
 the concurrency model's subject.
+
+For every state reachable by a sequential history (`ReachSeq`; lemmas in `Mochi/Lemmas/BrokerWill.lean`):
+* `C16_drop_publishes_will_iff` — connection loss: outputs = will fan-out + will event iff flag ∧ delay = 0; with a
+  delay the will is registered in `willDelayed`; without a will nothing; `C16_drop_will_receivers_partial` — who
+  receives it (`DeliversExactly`, restrictions of the C03 delivery theorem);
+* `C16_disconnect_iff` — DISCONNECT: every reason but 0x04 discards the will and the registered delayed will; 0x04 as a
+  connection loss; restricted to packets that are not the protocol error of
+  `C16_disconnect_violation_publishes_will` (Go: server.go:1431-1434);
+* `C16_delayed_will_iff` — the tick is the fold over the due entries (each once, removed); an admitted CONNECT of the
+  id removes the entry (sequential half of "a resumption cancels it"; F16a: `C16_cancelled_by_resume_counterexample`);
+* `C16_will_at_most_once_seq` — at most once, as state-level facts;
+* non-vacuity: `c16History` (will client dropped, delayed will cancelled / published, DISCONNECT, take-over).
 -/
 namespace Mochi.Broker
 open Mochi.Topics
@@ -284,8 +296,8 @@ theorem C16_disconnect_iff (caps : Caps) (s : Server) (hr : ReachSeq caps s) (i 
     simp
 
 /-- the restriction `seiViolation = false` of `C16_disconnect_iff` is needed: a DISCONNECT with reason 0x00 that raises
-    the session expiry interval from zero is a protocol error (server.go `processDisconnect`:
-    `ErrProtocolViolationZeroNonZeroExpiry`), the read loop ends with an error and the will IS published — the
+    the session expiry interval from zero is a protocol error (Go behaviour, not a model artefact: server.go:1431-1434
+    `processDisconnect` returns `ErrProtocolViolationZeroNonZeroExpiry`), the read loop ends with an error and the will IS published — the
     behaviour MQTT 5 §3.14.2.2.2 / §3.1.2.5 prescribes for a protocol error. -/
 theorem C16_disconnect_violation_publishes_will :
     let s := runSrv (init {})
